@@ -139,13 +139,25 @@ theorem stringValue_cssString (v : Url) (hs : Safe v) : stringValue (cssString v
 
 theorem strip_id (s : Url) (h1 : ∀ a, s.head? = some a → isSpace a = false)
     (h2 : ∀ b, s.getLast? = some b → isSpace b = false) : strip s = s := by
+  have ws_sp : ∀ c, isSpace c = false → isCssWs c = false := by
+    intro c hc
+    cases hw : isCssWs c with
+    | false => rfl
+    | true =>
+      exfalso
+      simp only [isCssWs, Bool.or_eq_true, beq_iff_eq] at hw
+      have : isSpace c = true := by
+        rcases hw with (((h | h) | h) | h) | h <;> subst h <;> decide
+      rw [this] at hc; cases hc
+  have h1 := fun a h => ws_sp a (h1 a h)
+  have h2 := fun b h => ws_sp b (h2 b h)
   cases s with
   | nil => rfl
   | cons a r =>
     have ha := h1 a rfl
-    have hd : (a :: r).dropWhile isSpace = a :: r := by simp [List.dropWhile, ha]
+    have hd : (a :: r).dropWhile isCssWs = a :: r := by simp [List.dropWhile, ha]
     simp only [strip, hd]
-    have hr : ((a :: r).reverse).dropWhile isSpace = (a :: r).reverse := by
+    have hr : ((a :: r).reverse).dropWhile isCssWs = (a :: r).reverse := by
       cases hrev : (a :: r).reverse with
       | nil => simp at hrev
       | cons b t =>
